@@ -221,6 +221,8 @@ def plan_C08(tier, seed, q):
             for hdr in ("default", "code"):
                 ex = {"side": side, "hdr": hdr, "mode": 0, "full": False, "bursts": 600 if side == "server" else 0}
                 jobs.append(Job("rt-race", "hostile", {"prop": "C08", "tier": tier, "seed": seed + 1, "extra": ex}, timeout=3300))
+    # "disconnecting ... with requests queued or executing ... traffic on other connections is still served"
+    jobs += real_jobs("C08", tier, seed, "order", 24, 200, shards=6)
     return {"level": "fault_enumeration", "exhaustive": False,
             "exhaustive_parts": ["all 256 upgrade bytes x 4 method kinds x 3 body kinds", "every truncation of every corpus frame",
                                  "every single-bit flip and {00,7f,80,ff} at every position of every corpus frame (first 80 bytes of the 70 KB frame)",
@@ -232,7 +234,10 @@ def plan_C08(tier, seed, q):
                     "at every position (thorough: all 255 other values for frames <= 64 B), seeded random frames and multi-byte mutations, and bursts "
                     "of 1..64 well-formed requests followed at once by EOF/reset; each worker process logs an input before delivering it, the supervisor "
                     "restarts it behind an input that kills it; probes on the same and on another connection must still be served; distinct = distinct "
-                    "(side, header, mode, family, corpus frame | upgrade byte); poll-mode servers get the same families over raw loopback TCP",
+                    "(side, header, mode, family, corpus frame | upgrade byte); poll-mode servers get the same families over raw loopback TCP; plus the "
+                    "real-socket teardown scenarios of engine 'real' (profile 'order'): a client disconnects while its first request is held at a gate "
+                    "and later ones are queued; a call on a newly accepted connection must complete while the gate is shut (decided causally: "
+                    "completing only once the gate opens is the violation)",
             "jobs": jobs, "min_evaluations": 20000, "min_distinct": 200, "parallel": 12,
             "assumptions": ["frames are delivered through socket.Messages (never raw stream garbage below the frame layer, whose length-prefix parser belongs to hslam/socket)",
                             "handlers of the harness are total; corrupted harness payload headers are clamped so that a corrupted delay/size field cannot stall the worker",
@@ -394,8 +399,13 @@ def plan_C04(tier, seed, q):
     jobs = (e2e_jobs("C04", tier, seed, "mix", 300, 4000, race_t=400) + e2e_jobs("C04", tier, seed + 3, "errors", 200, 3000)
             + real_jobs("C04", tier, seed, "mix", 48, 500, race_t=96)
             + pool_jobs("C04", tier, seed, [("limits", 300 if q else 6000)], shards=6)
-            + cut_jobs("C04", tier, seed, [], [0, 1, 2, 6], 9 if q else 2, 4))
-    return {"level": "exploration", "rule": E2E_RULE + "; oracles: handler ledger shows exactly one execution per successful or handler-failed call, none for unknown "
+            + cut_jobs("C04", tier, seed, [], [0, 1, 2, 6], 9 if q else 2, 4)
+            + shard("vt", "flags", "C04", tier, seed, 288, 6, timeout=1500))
+    return {"level": "exploration", "exhaustive_parts": ["engine 'flags': all 256 upgrade bytes x {unary, stream, unknown, empty method} x {payload, empty body} x 4 header "
+                                                          "encoders x 9 server I/O modes, one frame at a time from a raw peer"],
+            "rule": E2E_RULE + "; engine 'flags' (enumerated): a raw peer sends one request frame per upgrade byte 0..255; a message with the Heartbeat flag invokes "
+            "no handler, unary or stream, and delivers nothing to a stream handler; no frame is executed twice or answered twice with its own sequence number; a plain "
+            "request is executed and answered exactly once; oracles of the other engines: handler ledger shows exactly one execution per successful or handler-failed call, none for unknown "
             "methods / undecodable arguments / unencodable requests / pings, none for an id nobody sent, arguments equal to what was sent; the wire tap shows exactly "
             "one response frame per unary request and none unsolicited; through Transport and Client (incl. server kills, engine 'pool') an id is never executed "
             "twice; on connections cut at enumerated byte offsets (engine 'cut') nothing is executed or answered twice and nothing undelivered is executed" + R_RULE,
